@@ -546,6 +546,22 @@ pub fn release_snapshots_scenario(seed: u64, n_announces: u64) -> (u64, u64, Vec
             }
             check("BMCA", &mut problems, &mut states, &mut max_writes_per_call);
         }
+        if k % 13 == 6 {
+            // a run-time quality change writes defaultDS only; the other data sets keep the values
+            // of the update they came from (the quality is put back before the next BMCA run)
+            let orig = node.inst().default_ds().clock_quality;
+            let mut q = orig;
+            q.clock_class = [6u8, 7, 127, 128, 0][(k / 13 % 5) as usize];
+            q.offset_scaled_log_variance = 0x1234;
+            if node.set_clock_quality(q).is_err() {
+                break;
+            }
+            check("set_clock_quality", &mut problems, &mut states, &mut max_writes_per_call);
+            if node.set_clock_quality(orig).is_err() {
+                break;
+            }
+            check("set_clock_quality (restore)", &mut problems, &mut states, &mut max_writes_per_call);
+        }
         if k % 5 == 0 {
             // a panicking call (e.g. a nested acquisition, reported by part (a)) leaves the port unusable
             if node.call(1, Call::AnnounceTimer).is_err() {
